@@ -67,6 +67,19 @@ def describe_line(seg_lines):
     return json.dumps(e)[:400]
 
 
+C15_RESULT_INVS = ["Inv_C01", "Inv_C02", "Inv_C06"]
+MUTATING_LINES = ("new", "reset", "clear", "Insert", "Delete", "Pre", "GC", "Note")
+
+
+def reads_stripped(seg_lines):
+    """The same history without the read-only calls interleaved before the last line."""
+    out = []
+    for i, ln in enumerate(seg_lines):
+        if i == len(seg_lines) - 1 or json.loads(ln).get("op") in MUTATING_LINES:
+            out.append(ln)
+    return out
+
+
 def handle_violations(work, drive, prop, out, invariants):
     """Returns (violations, known). A violation is reported only after it reproduced in a fresh process."""
     known = []
@@ -111,6 +124,18 @@ def handle_violations(work, drive, prop, out, invariants):
         raise Infra("violation of %s in %s did not reproduce when the command was run again" % (inv, c["label"]))
     replay_path = save_replay(prop, seg)
     status, info = confirm(work, drive, replay_path, invariants)
+    if status == "confirmed" and prop == "C15" and inv in C15_RESULT_INVS:
+        # a wrong result is C15's business only if the interleaved read-only calls caused it: re-execute the
+        # same history without them (the failing line itself stays) - right now means the reads mattered
+        bare = reads_stripped(seg)
+        bare_path = save_replay(prop + "bare", bare)
+        st2, info2 = confirm(work, drive, bare_path, invariants)
+        os.remove(bare_path)
+        if st2 != "unreproduced":
+            os.remove(replay_path)
+            print("note: %s fails at %s also without the interleaved read-only calls (%s): a wrong result, but not an effect "
+                  "of queries - outside C15" % (inv, describe_line(seg), st2), flush=True)
+            return 0, known
     if status in ("confirmed", "crash"):
         print("VIOLATION property=%s replay=%s" % (prop, replay_path), flush=True)
         print("  invariant %s fails at: %s" % (inv, describe_line(seg)), flush=True)
@@ -260,11 +285,23 @@ def std_stages(tier, seed, battery, closed=("split", "long"), kinds_random=None,
         # a 16-slot node that gets completely full and is drained again (never grows to the 48-slot class)
         st.append(Stage("sim", "uint8", "fan16", size, battery, num=(2 if q else 8), depth=(260 if q else 520), ramp=True,
                         invs=["SearchOK", "SizeOK", "AllOK", "MinMaxOK", "WFOK"], every=False, batevery=1))
+        # the same small fans with the extremes deleted EAGERLY while draining (largest / smallest child removed from a full node)
+        for kind, u in (("uint8", "fan16"), ("alpha/string", "fan18"), ("int8", "fanb")):
+            st.append(Stage("sim", kind, u, size, battery, num=(2 if q else 8), depth=(260 if q else 520), ramp=True,
+                            invs=["SizeOK", "AllOK"], every=False, batevery=1, protect=False))
+        # a node that gets FULL at 16 children out of a larger byte alphabet, never grows, is drained to 2 (extremes first) and
+        # refilled with other bytes: what a full node leaves behind in its unused lanes meets new larger / in-between bytes
+        for kind, u in (("uint8", "fan1"), ("alpha/bytes", "fan64")):
+            st.append(Stage("sim", kind, u, size, battery, num=(2 if q else 8), depth=(300 if q else 600), ramp=True,
+                            invs=["SizeOK", "AllOK"], every=False, batevery=1, protect=False, fillcap=16, floor=2))
         # short cycles through the 4- and 16-slot capacities with extreme-key churn
         st.append(Stage("sim", "uint8", "fan18", size, battery, num=(3 if q else 12), depth=(300 if q else 600), ramp=True,
                         invs=["SearchOK", "SizeOK", "AllOK", "MinMaxOK", "WFOK"], every=False, batevery=1))
         st.append(Stage("sim", "alpha/string", "fan18", size, battery, num=(2 if q else 8), depth=(300 if q else 600), ramp=True,
                         invs=["SearchOK", "SizeOK", "AllOK", "MinMaxOK", "WFOK"], every=False, batevery=1))
+        # 4 -> 16 -> 48 and back BELOW a compressed path longer than the inline limit (resizes carry the true length)
+        st.append(Stage("sim", "alpha/string", "lfan20", size, battery, num=(2 if q else 8), depth=(240 if q else 500), ramp=True,
+                        invs=["SearchOK", "SizeOK", "AllOK", "WFOK"], every=False, batevery=2))
         # 4/16/48-class node holding the boundary bytes
         st.append(Stage("sim", "int8", "fanb", size, battery, num=(2 if q else 8), depth=(200 if q else 400), ramp=True,
                         invs=["SearchOK", "SizeOK", "AllOK", "WFOK"], every=False, batevery=6))
@@ -288,7 +325,10 @@ def std_stages(tier, seed, battery, closed=("split", "long"), kinds_random=None,
 PROP_INVS = {
     "C01": ["Inv_C01"], "C02": ["Inv_C02", "Inv_C02P"], "C03": ["Inv_C03", "Inv_C03P"], "C04": ["Inv_C04", "Inv_C04P"],
     "C05": ["Inv_C05", "Inv_C05P"],
-    "C06": ["Inv_C06"], "C11": ["Inv_C11"], "C14": ["Inv_C14"], "C15": ["Inv_C15"],
+    "C06": ["Inv_C06"], "C11": ["Inv_C11"], "C14": ["Inv_C14"],
+    # C15: the digest is untouched by queries, and - "hence ... without affecting any later result" - results
+    # stay the ideal map's with reads interleaved everywhere (attributed to the reads by a differential re-run)
+    "C15": ["Inv_C15", "Inv_C01", "Inv_C02", "Inv_C06"],
     "C08": ["Inv_C01", "Inv_C02", "Inv_C05", "Inv_C06", "Inv_C11"],
     "C09": ["Inv_C01", "Inv_C02", "Inv_C03", "Inv_C05", "Inv_C06", "Inv_C11"],
 }
@@ -612,6 +652,14 @@ def check_C10(work, prop, tier, seed, t0):
                            ("alpha/bytes", "fanb", 200), ("compound/i8+u16", "tuplefan", 480)):
             tstages.append(Stage("sim", kind, u, size, "search", num=(2 if q else 8), depth=(d if q else 2 * d), ramp=True,
                                  invs=["SizeOK"], every=False, batevery=(1 if u in ("fan18", "fan16", "greek16") else 4), start_full=(u == "tuplefan")))
+        tstages.append(Stage("sim", "uint8", "fan16", size, "search", num=(2 if q else 8), depth=(260 if q else 520), ramp=True,
+                             invs=["SizeOK"], every=False, batevery=1, protect=False))
+        tstages.append(Stage("sim", "collation/string/und", "greek16", size, "search", num=(2 if q else 8), depth=(220 if q else 440), ramp=True,
+                             invs=["SizeOK"], every=False, batevery=1, protect=False))
+        # full at 16 out of a larger alphabet, drained to 2, refilled with other bytes (stale lanes meet larger / in-between bytes)
+        for kind, u in (("uint8", "fan1"), ("alpha/bytes", "fan64"), ("int8", "fan64")):
+            tstages.append(Stage("sim", kind, u, size, "search", num=(2 if q else 8), depth=(300 if q else 600), ramp=True,
+                                 invs=["SizeOK"], every=False, batevery=1, protect=False, fillcap=16, floor=2))
         tstages.append(Stage("model", "collation/string/und", "textq", "q", "search"))
         tstages.append(Stage("model", "alpha/string", "split", "q", "search"))
         tree_out = tree_pipeline(work, prop, tstages, ["Inv_C01"], seed, model_invs=["SearchOK"], model_props=[], drive=drive)
